@@ -385,6 +385,112 @@ func C20(p *ir.Program, r *report.R) {
 		r.Check("K1", "evm/slice-bound/sites", "-", nSl >= 2, fmt.Sprintf("%d slices bounded by big.Int.Uint64() found in vm/evm (confirmed by hand: 2)", nSl))
 	}
 
+	// ---- JUMPDEST analysis belongs to the code it was computed from -----------------------------------
+	// The analysis map is shared by all frames of a transaction and keyed by code hash. Init code runs
+	// without a hash (SetCodeOptionalHash): under the empty key two different codes would share one
+	// bitmap, and the bitmap of a shorter code indexed with a destination inside a longer one panics.
+	// (a) every lookup in the shared map happens under a code hash known to be set; (b) a bitmap is
+	// only ever computed from the code it is stored for; (c) the destination is inside the code before
+	// code and bitmap are indexed.
+	{
+		has := p.Func("vm/evm", "destinations.has")
+		nSites := 0
+		for _, cs := range p.CallSites(has.Object().(*types.Func)) {
+			if strings.HasSuffix(p.Pos(cs.Fn.Pos()), "_test.go") {
+				continue
+			}
+			nSites++
+			in := cs.Instr.(ssa.Instruction)
+			key := Arg(cs.Instr, 1)
+			fs := ir.FactsAt(in)
+			set := ir.HasFact(fs, "!eq("+key+",zero:common.Hash)") || strings.HasPrefix(key, "crypto.Keccak256Hash(") || strings.HasPrefix(key, "evm.codeAndHash.Hash(")
+			r.Check("K1", "evm/jumpdest-analysis/shared-only-under-set-hash/"+ir.FuncName(cs.Fn), p.InstrPos(in), set, "the shared analysis map is consulted only with a non-empty code hash: key "+short(key, 80))
+			r.Check("K5", "evm/jumpdest-analysis/hash-and-code-of-one-contract/"+ir.FuncName(cs.Fn), p.InstrPos(in),
+				strings.HasSuffix(key, ".CodeHash") && Arg(cs.Instr, 2) == strings.TrimSuffix(key, ".CodeHash")+".Code", "hash and code passed to the analysis belong to the same contract: "+short(key, 60)+" / "+short(Arg(cs.Instr, 2), 60))
+		}
+		r.Check("K1", "evm/jumpdest-analysis/sites", p.Pos(has.Pos()), nSites >= 1, fmt.Sprintf("%d lookups in the shared analysis map", nSites))
+		// (b) bitmaps
+		nMaps := 0
+		for _, f := range p.Funcs {
+			if f.Pkg == nil || ir.RelPkg(f.Pkg.Pkg) != "vm/evm" || strings.HasSuffix(p.Pos(f.Pos()), "_test.go") {
+				continue
+			}
+			ir.Instrs(f, func(in ssa.Instruction) {
+				switch x := in.(type) {
+				case *ssa.MapUpdate:
+					if !strings.HasSuffix(x.Map.Type().String(), "evm.destinations") {
+						return
+					}
+					nMaps++
+					r.Check("K5", "evm/jumpdest-analysis/bitmap-of-the-keyed-code/"+ir.FuncName(f), p.InstrPos(in),
+						f == has && ir.Render(x.Key) == "codehash" && ir.Render(x.Value) == "evm.codeBitmap(code)", "the shared map is filled only by destinations.has with codeBitmap(code) under codehash: "+short(ir.Render(x.Value), 80))
+				}
+			})
+		}
+		var private []ir.Store
+		if fv := p.TryField("vm/evm", "Contract.analysis"); fv != nil {
+			private = p.Stores(fv)
+		}
+		for _, s := range private {
+			if strings.HasSuffix(p.Pos(s.Fn.Pos()), "_test.go") {
+				continue
+			}
+			nMaps++
+			base := ir.Render(s.Base)
+			r.Check("K5", "evm/jumpdest-analysis/bitmap-of-own-code/"+ir.FuncName(s.Fn), p.InstrPos(s.Instr), ir.Render(s.Val) == "evm.codeBitmap("+base+".Code)", "a frame's private analysis is computed from the frame's code: "+short(ir.Render(s.Val), 80))
+		}
+		r.Check("K5", "evm/jumpdest-analysis/bitmaps", "-", nMaps >= 1, fmt.Sprintf("%d places that store an analysis", nMaps))
+		// Contract.Code never changes without CodeHash changing with it (a stale hash would key the
+		// shared analysis of other code)
+		for _, s := range p.Stores(p.Field("vm/evm", "Contract.Code")) {
+			if strings.HasSuffix(p.Pos(s.Fn.Pos()), "_test.go") || s.Kind != "store" {
+				continue
+			}
+			together := false
+			for _, h := range p.Stores(p.Field("vm/evm", "Contract.CodeHash")) {
+				if h.Fn == s.Fn && h.Kind == "store" && ir.Render(h.Base) == ir.Render(s.Base) {
+					together = true
+				}
+			}
+			r.Check("K5", "evm/jumpdest-analysis/code-set-with-hash/"+ir.FuncName(s.Fn), p.InstrPos(s.Instr), together, "Contract.Code is assigned only together with CodeHash")
+		}
+		// (c) bounds before indexing
+		nIdx := 0
+		for _, f := range []*ssa.Function{has, p.TryFunc("vm/evm", "Contract.validJumpdest")} {
+			if f == nil {
+				continue
+			}
+			ir.Instrs(f, func(in ssa.Instruction) {
+				call, ok := in.(*ssa.Call)
+				var idx, code string
+				switch {
+				case ok && ir.CalleeName(call) == "evm.bitvec.codeSegment":
+					idx = Arg(call, 1)
+				default:
+					u, isLoad := in.(*ssa.UnOp)
+					if !isLoad {
+						return
+					}
+					ia, isIdx := u.X.(*ssa.IndexAddr)
+					if !isIdx {
+						return
+					}
+					idx = ir.Render(ia.Index)
+				}
+				if f == has {
+					code = "code"
+				} else {
+					code = "c.Code"
+				}
+				nIdx++
+				fs := ir.FactsAt(in)
+				r.Check("K1", "evm/jumpdest-analysis/destination-inside-code/"+ir.FuncName(f), p.InstrPos(in),
+					ir.HasFact(fs, "lt("+idx+",len("+code+"))") && ir.HasFact(fs, "lt(big.Int.BitLen(dest),63)"), "code and bitmap are indexed with a destination below len(code) that fits 63 bits: "+short(idx, 60))
+			})
+		}
+		r.Check("K1", "evm/jumpdest-analysis/index-sites", "-", nIdx >= 2, fmt.Sprintf("%d index sites (confirmed by hand: 2 per function)", nIdx))
+	}
+
 	// ---- determinism / crash-free in vm/evm ---------------------------------------------------
 	{
 		reach := ir.ReachableIn([]*ssa.Function{p.Func("vm/evm", "Interpreter.Run")}, func(f *ssa.Function) bool {
